@@ -33,8 +33,8 @@ from bounded.oracles_linalg import (
 CONTRACTS = {
     "C13.svd_truncated": (
         "2-D abelian and fermionic arrays (all symmetries, directions, charges, sparsity, rank-deficient, fused from rank 3/4, "
-        "pending signs, float64/complex128) incl. exactly degenerate spectra (equal / identity blocks in several sectors); "
-        "cutoff_mode 1..6 x cutoffs {1e-12, below/at/above each of <=4 singular values resp. cumulative weights, "
+        "pending signs, float64/complex128) incl. exactly degenerate spectra (equal / identity / integer-diagonal blocks in several sectors); "
+        "cutoff_mode 1..6 x cutoffs {1e-12, 0.125, 0.5, below/at/above each of <=4 singular values resp. cumulative weights, "
         "(1-1e-7, 1, 1+1e-7, 1.5) x total weight, 1e6, -1, 0.0} x max_bond {-1, 1..total+2} x absorb {-1, 0, 1, None}",
         "systematic small scope (thinned) + degenerate family + seeded random; one evaluation = one (matrix, mode) with all "
         "cutoffs x bond limits x absorbs inside; tol 1e-9",
@@ -49,15 +49,15 @@ def gen_cases(tier, seed):
     n = 0
     for m in degenerate_matrices():
         n += 1
-        if quick and n % 3:
+        if quick and n % 4:
             continue
         for mode in range(1, 7):
             yield {"contract": "C13.svd_truncated", "m": m, "mode": mode}
-    for m in systematic_matrices(stride=12 if quick else 2):
+    for m in systematic_matrices(stride=16 if quick else 2):
         for mode in range(1, 7):
             yield {"contract": "C13.svd_truncated", "m": m, "mode": mode}
     rng = np.random.default_rng([13, 1, seed])
-    for i in range(200 if quick else 12000):
+    for i in range(160 if quick else 12000):
         m = random_matrix(rng, degenerate=0.3)
         for mode in range(1, 7):
             yield {"contract": "C13.svd_truncated", "m": m, "mode": mode}
@@ -73,7 +73,7 @@ def bond_limits(n):
 
 def cutoff_specs(mode, n):
     """Cutoff descriptors for a spectrum of n values (resolved against S at check time)."""
-    out = [["abs", -1.0], ["abs", 0.0], ["abs", 1e-12], ["abs", 1e6]]
+    out = [["abs", -1.0], ["abs", 0.0], ["abs", 1e-12], ["abs", 1e6], ["abs", 0.125], ["abs", 0.5]]
     ks = sorted({0, 1, n // 2, n - 1} & set(range(n)))
     if mode in (1, 2):
         for k in ks:
@@ -148,6 +148,7 @@ def check_case(d):
     wtot = total_weight(S, mode)
     prod_cache = {}
     combos = 0
+    exact_spectrum = bool(n and np.all(S == np.round(S)) and np.max(S) < 2**20)
 
     for max_bond in bond_limits(n):
         counts_by_cutoff = []
@@ -156,7 +157,9 @@ def check_case(d):
             ge_total = bool(mode >= 3 and cutoff > 0 and cutoff >= wtot * (1 - 1e-9))
             where = f"mode={mode} cutoff={cspec}->{cutoff!r} max_bond={max_bond}"
             # ---- oracle (an interval where the cutoff sits on a rounding boundary)
-            eps = 0.0 if mode == 1 else 1e-11
+            # integer-valued spectra and dyadic cutoffs: every product / partial sum of the rule is
+            # exact in float64, so is the boundary; otherwise allow for rounding at the boundary
+            eps = 0.0 if (mode == 1 or (exact_spectrum and (mode in (3, 5) or cutoff * 1024 == int(cutoff * 1024)))) else 1e-11
             if cutoff > 0:
                 k_hi, tie_hi = kept_set(S, mode, cutoff * (1 - eps), max_bond)
                 k_lo, tie_lo = kept_set(S, mode, cutoff * (1 + eps), max_bond)
